@@ -154,6 +154,44 @@ func runC07(c *core.Ctx) {
 				a.check(g, fname(fn)+" snapshot asked only for missed keys", ap, "", "a key the buffer answered is also read from the snapshot: "+a.w(w))
 			}
 			a.checkAt(len(appends) == 1, fname(fn)+" collects missed keys", a.fnPos(fn), "", "missed-key collection not found")
+			// the hit map must not change while keys are still being classified: a key may be repeated in
+			// the batch, and a tombstone removed at its first occurrence would turn the second into a "miss"
+			core.Instrs(fn, func(in ssa.Instruction) {
+				lk, ok := in.(*ssa.Lookup)
+				if !ok || !lk.CommaOk {
+					return
+				}
+				if ex, ok := core.Strip(lk.X).(*ssa.Extract); !ok || ex.Tuple != bufMap {
+					return
+				}
+				mutated := false
+				core.Instrs(fn, func(m ssa.Instruction) {
+					isMut := false
+					switch x := m.(type) {
+					case *ssa.MapUpdate:
+						if ex, ok := core.Strip(x.Map).(*ssa.Extract); ok && ex.Tuple == bufMap {
+							isMut = true
+						}
+					case *ssa.Call:
+						if b, ok := x.Call.Value.(*ssa.Builtin); ok && b.Name() == "delete" {
+							if ex, ok := core.Strip(x.Call.Args[0]).(*ssa.Extract); ok && ex.Tuple == bufMap {
+								isMut = true
+							}
+						}
+					}
+					if !isMut {
+						return
+					}
+					q := &core.Q{Fn: fn}
+					if found, w, _ := q.Reach(m, func(t ssa.Instruction) bool { return t == ssa.Instruction(lk) }); found {
+						mutated = true
+						a.viol(fname(fn)+" hit map is not modified while keys are classified", m, "the buffer's result map is modified (tombstone removed / entry added) on a path that leads back to the hit test: a key repeated in the batch is classified differently at its second occurrence — a key deleted in the transaction is read from the snapshot and returned: "+a.w(w))
+					}
+				})
+				if !mutated {
+					a.ok(fname(fn)+" hit map is not modified while keys are classified", in, "")
+				}
+			})
 			ad := p.Prov().Desc(snapShrink.Common().Args[1])
 			okArg := len(ad) >= 1
 			for _, d := range ad {
